@@ -470,13 +470,13 @@ TOKENS = [
     "(", ")", "[", "]", "{", "}", "#{", "#(",
     "'", "`", "~", "~@", "#* ", "#** ", "#^ ", "#_ ",
     " ", ";c\n",
-    "a ", "@b ", ". ", "... ", "None ", ".a ", "a.b ", "..a.b ",
+    "a ", "@b ", "@b.c ", ". ", "... ", "None ", ".a ", "a.b ", "..a.b ",
     "quote ", "unquote ", "unquote-splice ",
     ":k ", ": ",
     "1 ", "-0.0 ", "NaN ", "1e22 ", "0x1F ", "2j ", "-0j ", "1-0j ", "NaN-Infj ",
     '"s"', '"q\\"\\\\\n"', 'b"\\xff\\""', 'r"\\d"',
     "#[[\n\nab]]", "#[d[a]]\"b]d]",
-    'f"a{x}"', 'f"{x !r:>{w}}"', "#[f[\n\n{x}]f]", 't"{x}"',
+    'f"a{x}"', 'f"{x !r:>{w}}"', "#[f[\n\n{x}]f]", 't"{x}"', 'f"{x :a{y =}}"', 'f"\\\\N{x}"',
 ]
 
 
